@@ -143,7 +143,7 @@ class Rel32JmpRelocation(Relocation):
 
     def calc(self, sym_value, reloc_value):
         offset = sym_value - reloc_value + self.addend
-        return offset
+        return wrap_negative(offset, 32)
 
 
 @isa.register_relocation
